@@ -154,3 +154,8 @@ def _user(ck, prog, f, construct):
     res = reduction(prog, user=["A", "B"])
     ck.ob("DT-user-validate", construct, res[0] == "raise", expected="non-dict rejected", found=res[0], slot="user:non-dict",
           where=f.loc())
+
+
+def run_thorough(ck, prog):
+    from props import thorough
+    ck.attempt(thorough.doc_alphabets, ck, prog)
